@@ -106,6 +106,14 @@ CHECKS["C14"] = dict(
     ref="DESIGN.md §5 C14",
 )
 
+CHECKS["C19"] = dict(
+    level="exploration",
+    text="Controlled-schedule runtime monitoring: real threads sharing one cold XmlContext (and shared parser/serializer instances) are run one at a time by a deterministic scheduler on sys.monitoring LINE events and pre-empted only at lines touching the shared lazily built state; per ordered pair of operations and conflict group all schedules are enumerated breadth-first up to 3 pre-emptions (depth reached per pair is reported), plus PCT-style random schedules for 3-8 threads and uncontrolled 16-thread stress with a 1 microsecond switch interval. Every concurrent result must equal the result of the same call alone on a fresh context; the C14 shadow hooks run under the scheduler. Held on the executions produced.",
+    note="Trusted: vf/sched.py (token-passing scheduler; yield lines recomputed from the working tree by the names of the shared attributes), CPython's GIL semantics. Free-threaded builds and races inside lxml/expat are out of reach.",
+    technique="runtime monitoring: deterministic schedule exploration (iterative context bounding) + PCT random schedules + stress, with an alone-vs-concurrent result oracle",
+    ref="DESIGN.md §3.7, §5 C19",
+)
+
 FIX_COMMITS = []  # guarded hook commits in /repo (none: all hooks are installed from the harness side)
 
 
